@@ -57,3 +57,12 @@ claim(
     "abstract interpretation with recorded loop calls; degree domain on the trip count; boolean truth tables",
     "DESIGN.md §5 C23",
 )
+
+claim(
+    "C01",
+    "other",
+    "Decides, by abstract interpretation of the kernel on symbolic fields over a stencil domain, the structural skeleton that makes the scheme conservative: curl_E/curl_H equal the Levi-Civita curl with forward/backward one-cell differences (mutual adjoints), each derivative carries the metric of its own axis and stencil and the backward metric is the dual width with the first cell replicated, halos are one cell wide and wrap exactly on periodic axes, Bloch ghosts are phase/conj(phase)=exp(+-ikL), PEC/PMC zero exactly the tangential components on their slab at the end of their own half step, update_E/update_H equal the semi-implicit normal forms on every isotropic/diagonal x lossy/lossless path with a contractive loss factor, and forward() steps E then H with H_prev taken before. The energy identity itself, the full-tensor averaging and round-off are not decided.",
+    TB + "; sa/ndarr.py stencil/array model (slices, pad, roll, concatenate, at[].set/add as indicator algebra); oracle = definition of the discrete curl and Schneider's semi-implicit loss factor",
+    "abstract interpretation over a stencil (shifted-atom) array domain; polynomial identity against the Levi-Civita oracle",
+    "DESIGN.md §5 C01",
+)
